@@ -3,6 +3,7 @@ package main
 // Evaluation of spec expressions into SMT terms.
 
 import (
+	"go/ast"
 	"fmt"
 	"go/token"
 	"go/types"
@@ -215,6 +216,13 @@ func (fc *FnCtx) specEval(env *SpecEnv, e SExpr) Val {
 		if env.useVars {
 			if v, ok := env.lookupVarByName(e.Name); ok {
 				return v
+			}
+			if env.outermost {
+				// a postcondition may name a local of an inner scope; on a path where it is not live its value is
+				// arbitrary (the clause must then hold for every value)
+				if v, ok := fc.undefinedLocal(env.state(), e.Name); ok {
+					return v
+				}
 			}
 		}
 		// package-level constant / variable of the contract's package
@@ -1119,4 +1127,28 @@ func (eng *Engine) importedPkgs(p *Pkg, name string) []*Pkg {
 		}
 	}
 	return out
+}
+
+// undefinedLocal: a local variable declared somewhere in the function under verification (unique by name) that is
+// not live in the given state: an arbitrary value of its type.
+func (fc *FnCtx) undefinedLocal(st *State, name string) (Val, bool) {
+	r := fc.root()
+	if r.decl == nil || r.decl.Body == nil {
+		return Val{}, false
+	}
+	var found []types.Object
+	ast.Inspect(r.decl.Body, func(x ast.Node) bool {
+		if id, ok := x.(*ast.Ident); ok && id.Name == name {
+			if o := r.info.Defs[id]; o != nil {
+				if _, isVar := o.(*types.Var); isVar {
+					found = append(found, o)
+				}
+			}
+		}
+		return true
+	})
+	if len(found) != 1 {
+		return Val{}, false
+	}
+	return fc.freshVal(st, "undef_"+name, found[0].Type()), true
 }
